@@ -80,7 +80,7 @@ pub fn build_with<T: Flavor>(pt: T, spec: &BuildSpec, acc: &mut Acc) -> Built<T>
 }
 
 /// Names of the builder flavours.
-pub const BUILD_FLAVORS: [&str; 5] = ["String", "CowOwned", "CowBorrowed", "SmallString", "PackageType"];
+pub const BUILD_FLAVORS: [&str; 6] = ["String", "CowOwned", "CowBorrowed", "SmallString", "SmallStringHeap", "PackageType"];
 
 /// Build `spec` with the flavour named `flavor` and hand the value to `f` (monomorphised per flavour
 /// through the `WithPurl` visitor).
@@ -107,6 +107,15 @@ pub fn build_flavor(flavor: &str, spec: &BuildSpec, acc: &mut Acc, f: &mut impl 
         "CowBorrowed" => go::<Cow<'static, str>>("CowBorrowed", Some(Cow::Borrowed(intern(&spec.ty))), spec, acc, f),
         #[cfg(feature = "smart")]
         "SmallString" => go::<purl::SmallString>("SmallString", Some(purl::SmallString::from(spec.ty.as_str())), spec, acc, f),
+        // the same value in the other representation: a small string that lives on the heap although its
+        // content would fit inline (it was longer once)
+        #[cfg(feature = "smart")]
+        "SmallStringHeap" => {
+            let mut t = purl::SmallString::from("x".repeat(64));
+            t.truncate(0);
+            t.push_str(&spec.ty);
+            go::<purl::SmallString>("SmallStringHeap", Some(t), spec, acc, f)
+        },
         #[cfg(feature = "typed")]
         "PackageType" => go::<purl::PackageType>("PackageType", <purl::PackageType as Flavor>::mk(&spec.ty), spec, acc, f),
         _ => {},
